@@ -254,7 +254,7 @@ class Node:
         self.tcp_port: int | None = tcp_port
         self.sctp_port: int | None = sctp_port
         self.realm_name: str = realm_name
-        self.state_id: int = int(time.time())
+        self.state_id: int = int(time.time()) & 0xffffffff
 
         self.vendor_id: int = 99999
         """Our vendor ID. Defaults to "unknown"."""
